@@ -399,6 +399,15 @@ pub fn c16() -> Result<u64, String> {
         // the same logical content written at other start positions: the archive bytes (from the start position on) are the same
         for p2 in [16_300u64, 70_001] { let (b2, _) = write_at(build(&tiles, c, &meta), p2).map_err(|e| e.to_string())?;
             if b2[p2 as usize..] != a[..] { return Err(format!("same logical content, different bytes when written at start position {p2} instead of 0 ({} tiles, {c:?})", tiles.len())); } }
+        {   // settings at the edge of their fields (zooms are plain bytes: 0..=255) are read back and re-written as stored
+            let mut pe = build(&tiles, c, &meta); pe.min_zoom = [0u8, 31, 32, 255][round % 4]; pe.max_zoom = [255u8, 32, 33, 31][round % 4]; pe.center_zoom = [200u8, 0, 32, 255][round % 4];
+            pe.tile_type = TileType::Unknown; pe.tile_compression = Compression::Unknown; pe.max_longitude = 214.7483647; pe.min_latitude = -214.7483648;
+            let e1 = write_at(pe, 0).map_err(|e| e.to_string())?.0;
+            let back = PMTiles::from_bytes(e1.clone()).map_err(|e| format!("archive with settings at the edge of their fields does not open: {e}"))?;
+            let (z0, z1, z2) = (back.min_zoom, back.max_zoom, back.center_zoom);
+            let e2 = write_at(back, 0).map_err(|e| e.to_string())?.0;
+            if e1 != e2 { let i = e1.iter().zip(&e2).position(|(x, y)| x != y).unwrap_or(e1.len().min(e2.len())); return Err(format!("rewriting a just-read archive with min/max/center zoom {:?} (read back as {:?}) changes byte {i} ({c:?})", ([0u8, 31, 32, 255][round % 4], [255u8, 32, 33, 31][round % 4], [200u8, 0, 32, 255][round % 4]), (z0, z1, z2))); }
+        }
         let c2 = write_at(PMTiles::from_bytes(a.clone()).map_err(|e| e.to_string())?, 0).map_err(|e| e.to_string())?.0;
         if a != c2 { let i = a.iter().zip(&c2).position(|(x, y)| x != y).unwrap_or(a.len().min(c2.len())); return Err(format!("rewriting an archive that was just read back changes byte {i} ({c:?}, {} tiles)", tiles.len())); }
         let mut out = futures::io::Cursor::new(Vec::new());
@@ -567,6 +576,36 @@ pub fn c03_c11_c20() -> Result<u64, String> {
             same_content(&mut part, &want, &format!("partial open with range ({lo:?}, {hi:?}) of {desc}"))?;
         }
     }
+    // C11: ranges that lie strictly INSIDE a run of equal tiles, and ranges that start behind the last id of zoom 31
+    {
+        use std::ops::Bound::*;
+        const LAST: u64 = 6148914691236517204;
+        let mut tiles = Model::new();
+        for id in 100u64..140 { tiles.insert(id, vec![7, 7, 7]); }            // one run of 40
+        for id in 200u64..203 { tiles.insert(id, vec![8]); }                  // one run of 3
+        tiles.insert(5, vec![1]); tiles.insert(150, vec![2, 2]);
+        for id in [LAST - 1, LAST, LAST + 1, LAST + 2, LAST + 9, 1u64 << 63, u64::MAX - 2, u64::MAX - 1] { tiles.insert(id, vec![(id % 200) as u8, 3]); }
+        for c in COMPS {
+            let (b, _) = write_at(build(&tiles, c, &Default::default()), 0).map_err(|e| e.to_string())?;
+            let ranges: Vec<(std::ops::Bound<u64>, std::ops::Bound<u64>)> = vec![
+                (Included(110), Included(120)), (Included(101), Included(101)), (Excluded(100), Excluded(139)), (Included(138), Excluded(139)), (Included(201), Included(201)), (Excluded(200), Excluded(202)),
+                (Included(120), Included(201)), (Included(139), Included(200)), (Included(130), Unbounded), (Unbounded, Included(110)),
+                (Included(LAST + 1), Unbounded), (Excluded(LAST), Unbounded), (Included(LAST + 2), Included(u64::MAX - 2)), (Included(1 << 63), Unbounded), (Excluded(LAST + 1), Excluded(u64::MAX - 1)), (Included(LAST), Included(LAST + 1)),
+                (Included(u64::MAX - 1), Unbounded), (Included(u64::MAX), Unbounded),
+            ];
+            for (lo, hi) in ranges { n += 1;
+                let inr = |x: u64| (match lo { Included(v) => x >= v, Excluded(v) => x > v, Unbounded => true }) && (match hi { Included(v) => x <= v, Excluded(v) => x < v, Unbounded => true });
+                let want: Model = tiles.iter().filter(|(k, _)| inr(**k)).map(|(k, v)| (*k, v.clone())).collect();
+                let desc = format!("library-written archive with a run 100..=139, a run 200..=202 and ids around the last id of zoom 31 ({c:?})");
+                let part = quiet(|| PMTiles::from_bytes_partially(b.clone(), (lo, hi))).map_err(|p| format!("partial open with range ({lo:?}, {hi:?}) panicked: {p} ({desc})"))?;
+                let mut part = part.map_err(|e| format!("partial open with range ({lo:?}, {hi:?}) fails although the full open succeeds: {e} ({desc})"))?;
+                same_content(&mut part, &want, &format!("partial open with range ({lo:?}, {hi:?}) of a {desc}"))?;
+                let apart = quiet(|| block_on(PMTiles::from_async_reader_partially(futures::io::Cursor::new(b.clone()), (lo, hi)))).map_err(|p| format!("async partial open with range ({lo:?}, {hi:?}) panicked: {p}"))?
+                    .map_err(|e| format!("async partial open with range ({lo:?}, {hi:?}) fails: {e} ({desc})"))?;
+                if apart.num_tiles() != want.len() { return Err(format!("async partial open with range ({lo:?}, {hi:?}) sees {} tiles, expected {} ({desc})", apart.num_tiles(), want.len())); }
+            }
+        }
+    }
     Ok(n)
 }
 
@@ -581,6 +620,23 @@ pub fn c06() -> Result<u64, String> {
     for &len in &[0usize, 1, 2, 100, 4000, 4063, 4064, 4070, 4095, 4096, 4097, 9000, 17000, 20000] { plan.push((len, 5)); }
     plan.push((21845, 6)); plan.push((40000, 6));   // (pre == 6: highly regular entries -- see below -- that fit a single root when compressed)
     for pre in [127usize, 1000, 70000] { plan.push((fit, pre)); plan.push((fit - 1, pre)); plan.push((fit + 1, pre)); plan.push((9000, pre)); }
+    // lists whose uncompressed encoding has exactly 16256, 16257 (the budget) and 16258 bytes: the budget itself still fits
+    for target in [16256usize, 16257, 16258] { for pre in [0usize, 127] { n += 1;
+        let mut es: Vec<E> = (0..4000u64).map(|i| E { id: i * 2, off: 130 * i, len: 2, run: 1 }).collect();
+        let mut k = 0usize;
+        while dir_enc(&es).len() < target && k < es.len() { es[k].len = 200; if dir_enc(&es).len() > target { es[k].len = 2; } k += 1; }   // a length >= 128 costs one more byte
+        let mut j = 0usize;
+        while dir_enc(&es).len() < target && j < 4000 { es.push(E { id: 8000 + 2 * j as u64, off: 130 * (4000 + j as u64), len: 2, run: 1 }); j += 1; }
+        while dir_enc(&es).len() > target { es.pop(); }
+        let mut t = es.len(); while dir_enc(&es).len() < target && t > 0 { t -= 1; if es[t].len == 2 { es[t].len = 200; } }
+        if dir_enc(&es).len() != target { return Err(format!("generator bug: could not build a list of exactly {target} bytes (got {})", dir_enc(&es).len())); }
+        let mut out = Cursor::new(vec![0x11u8; pre]); out.seek(SeekFrom::Start(pre as u64)).unwrap();
+        let leaves = util::write_directories(&mut out, &to_entries(&es), Compression::None, None).map_err(|e| format!("write_directories failed: {e}"))?;
+        let endpos = out.position() as usize; let buf = out.into_inner(); let root_raw = &buf[pre..endpos];
+        let desc = format!("{} entries whose uncompressed encoding has exactly {target} bytes, stream position {pre}", es.len());
+        if target <= 16257 { if !leaves.is_empty() || root_raw != &dir_enc(&es)[..] { return Err(format!("list fits the root budget of 16257 bytes but was not written as a single root ({desc}): root {} bytes, leaves {} bytes", root_raw.len(), leaves.len())); } }
+        else if leaves.is_empty() || root_raw.len() > 16257 { return Err(format!("list exceeds the root budget but no leaves were written / root has {} bytes ({desc})", root_raw.len())); }
+    } }
     for &(len, pre) in &plan { for c in COMPS { for start in [None, Some(1usize), Some(7), Some(4096), Some(100_000)] {
         if start == Some(1) && len > 4100 && !(len == 9000 && pre == 70000) && !(len == 17000) { continue; }
         if pre != 5 && start.is_some() && start != Some(4096) && !(len == 9000 && pre == 70000) { continue; }
@@ -682,6 +738,21 @@ pub fn c08_child() -> Result<u64, String> {
         for cut in (0..base.len()).step_by(1 + base.len() / 150) { corpus.push((format!("prefix of {cut} bytes ({c:?})"), base[..cut].to_vec())); }
         for pos in 0..base.len().min(200) { for v in [0u8, 1, 0x7f, 0x80, 0xff] { if base[pos] != v { let mut b = base.clone(); b[pos] = v; corpus.push((format!("byte {pos} := {v:#x} ({c:?})"), b)); } } }
     }
+    {   // a very long, non-cyclic chain of nested leaf directories (each directory holds one pointer to the next): must be answered, not followed to the end
+        let (base, _) = write_at(build(&tiles, Compression::None, &Default::default()), 0).map_err(|e| e.to_string())?;
+        for depth in [5usize, 150_000] {
+            let put = |v: u64, o: &mut Vec<u8>| { let mut v = v; loop { if v < 128 { o.push(v as u8); break; } o.push((v % 128) as u8 + 128); v /= 128; } };
+            let mut leaves = Vec::with_capacity(depth * 12);
+            for i in 0..depth { let mut d = vec![1u8, 0, 0]; if i + 1 < depth { d.push(12); put(12 * (i as u64 + 1) + 1, &mut d); } else { d[2] = 1; d.push(1); put(1, &mut d); } d.resize(12, 0); leaves.extend(d); }
+            let root = { let mut d = vec![1u8, 0, 0, 12]; put(1, &mut d); d };
+            let mut b = base[..127].to_vec(); b.extend(&root); let lo = b.len() as u64; b.extend(&leaves); let dof = b.len() as u64; b.extend([9u8; 16]);
+            b[8..16].copy_from_slice(&127u64.to_le_bytes()); b[16..24].copy_from_slice(&(root.len() as u64).to_le_bytes());
+            b[24..32].copy_from_slice(&0u64.to_le_bytes()); b[32..40].copy_from_slice(&0u64.to_le_bytes());
+            b[40..48].copy_from_slice(&lo.to_le_bytes()); b[48..56].copy_from_slice(&(leaves.len() as u64).to_le_bytes());
+            b[56..64].copy_from_slice(&dof.to_le_bytes()); b[64..72].copy_from_slice(&16u64.to_le_bytes());
+            corpus.push((format!("chain of {depth} nested leaf directories (None)"), b));
+        }
+    }
     for (name, b) in corpus { n += 1;
         let res = quiet(|| {
             let _ = Header::from_bytes(&b);
@@ -740,6 +811,26 @@ pub fn c09() -> Result<u64, String> {
 pub fn c15() -> Result<u64, String> {
     let mut r = Rng::new(seed() ^ 15);
     let mut n = 0u64;
+    {   // a tile entry whose byte range ends beyond u64::MAX (legal to open: nothing is read): every later operation that touches it is an error, never a panic
+        let tiles0 = gen_tiles(&mut Rng::new(5), 2, 2);
+        let (base, _) = write_at(build(&tiles0, Compression::None, &Default::default()), 0).map_err(|e| e.to_string())?;
+        let put = |v: u64, o: &mut Vec<u8>| { let mut v = v; loop { if v < 128 { o.push(v as u8); break; } o.push((v % 128) as u8 + 128); v /= 128; } };
+        for (off, len) in [(u64::MAX - 10, 30u64), (u64::MAX - 1, 1), (u64::MAX - 5000, 50_000_000)] { n += 1;
+            let mut root = vec![2u8, 1, 1, 1, 1]; put(3, &mut root); put(len, &mut root); put(1, &mut root); put(off, &mut root);   // ids 1, 2; lengths 3, len; offsets 0, off-1 (+1 encoding)
+            let mut b = base[..127].to_vec(); b.extend(&root); let dof = b.len() as u64; b.extend([7u8; 64]);
+            b[8..16].copy_from_slice(&127u64.to_le_bytes()); b[16..24].copy_from_slice(&(root.len() as u64).to_le_bytes());
+            b[24..32].copy_from_slice(&0u64.to_le_bytes()); b[32..40].copy_from_slice(&0u64.to_le_bytes());
+            b[40..48].copy_from_slice(&dof.to_le_bytes()); b[48..56].copy_from_slice(&0u64.to_le_bytes());
+            b[56..64].copy_from_slice(&1u64.to_le_bytes()); b[64..72].copy_from_slice(&64u64.to_le_bytes());
+            let what = format!("archive with a tile entry at absolute offset {} of length {len}", off);
+            match quiet(|| PMTiles::from_bytes(b.clone()).map(|mut pm| { let r1 = pm.get_tile_by_id(2).map(|t| t.map(|v| v.len())); let r0 = pm.get_tile_by_id(1).map(|t| t.map(|v| v.len())); let mut o = Cursor::new(Vec::new()); let w = pm.to_writer(&mut o).is_ok(); (r1.is_ok(), r0.ok().flatten(), w) })) {
+                Err(p) => return Err(format!("panic `{p}` while looking up / re-saving an {what}")),
+                Ok(Ok((ok2, _, wrote))) => { if ok2 { return Err(format!("lookup of the tile whose range lies beyond the end of the stream returned Ok ({what})")); } if wrote { return Err(format!("re-save of an {what} returned Ok")); } }
+                Ok(Err(_)) => {} }
+            match quiet(|| block_on(async { match PMTiles::from_async_reader(futures::io::Cursor::new(b.clone())).await { Ok(mut pm) => pm.get_tile_by_id_async(2).await.is_ok(), Err(_) => false } })) {
+                Err(p) => return Err(format!("panic `{p}` in the async lookup of an {what}")), Ok(true) => return Err(format!("async lookup beyond the end of the stream returned Ok ({what})")), Ok(false) => {} }
+        }
+    }
     for (k, c) in COMPS.iter().enumerate() { for size in [3usize, 5000] {
         let tiles = if size > 100 { big_tiles(size) } else { gen_tiles(&mut r, size, 2) };
         let c = if size > 100 { Compression::None } else { *c }; if size > 100 && k > 0 { continue; }
@@ -953,6 +1044,26 @@ pub fn c12() -> Result<u64, String> {
             }
         }
     }
+    // archives WITHOUT tiles, and archives with very large metadata (17 MiB decompressed), written and read by both variants
+    for c in COMPS { for big_meta in [false, true] { n += 1;
+        let mut meta = serde_json::Map::new();
+        if big_meta { meta.insert("blob".into(), serde_json::Value::String("ab".repeat(17 * 512 * 1024 + 7))); meta.insert("tail".into(), serde_json::json!([1, 2, 3])); }
+        let what = format!("archive without tiles, {} metadata, {c:?}", if big_meta { "17 MiB of" } else { "empty" });
+        let tiles = Model::new();
+        let (sb, _) = write_at(build(&tiles, c, &meta), 0).map_err(|e| format!("sync write of an {what}: {e}"))?;
+        let mut apm = PMTiles::new_async(TileType::Png, Compression::None); apm.internal_compression = c; apm.meta_data = meta.clone();
+        let mut out = futures::io::Cursor::new(Vec::new()); block_on(apm.to_async_writer(&mut out)).map_err(|e| format!("async write of an {what}: {e}"))?; let ab = out.into_inner();
+        for (name, b) in [("sync-written", &sb), ("async-written", &ab)] {
+            let s = PMTiles::from_bytes(b.clone()).map_err(|e| format!("sync open of the {name} {what}: {e}"))?;
+            let a = block_on(PMTiles::from_async_reader(futures::io::Cursor::new(b.clone()))).map_err(|e| format!("async open of the {name} {what} fails although the sync open succeeds: {e}"))?;
+            if s.num_tiles() != 0 || a.num_tiles() != 0 { return Err(format!("{name} {what}: readers see tiles")); }
+            if s.meta_data != meta { return Err(format!("sync open of the {name} {what}: metadata differs")); }
+            if a.meta_data != meta { return Err(format!("async open of the {name} {what}: metadata differs from what the sync reader returns")); }
+            use std::ops::Bound::*;
+            let pa = block_on(PMTiles::from_async_reader_partially(futures::io::Cursor::new(b.clone()), (Included(3u64), Unbounded))).map_err(|e| format!("async partial open of the {name} {what}: {e}"))?;
+            if pa.meta_data != meta { return Err(format!("async partial open of the {name} {what}: metadata differs")); }
+        }
+    } }
     // headers with one byte changed (magic, version, enum codes, flags): the sync and the async reader agree on accept / reject
     {
         let tiles = gen_tiles(&mut r, 3, 2);
